@@ -114,16 +114,16 @@ func (s sheet) delta(after sheet) map[string]*big.Int {
 	seen := map[string]bool{}
 	for a, m := range s {
 		for d := range m {
-			seen[a+"/"+d] = true
+			seen[a+"|"+d] = true
 		}
 	}
 	for a, m := range after {
 		for d := range m {
-			seen[a+"/"+d] = true
+			seen[a+"|"+d] = true
 		}
 	}
 	for k := range seen {
-		i := strings.LastIndex(k, "/")
+		i := strings.LastIndex(k, "|")
 		a, d := k[:i], k[i+1:]
 		diff := new(big.Int).Sub(after.get(a, d), s.get(a, d))
 		if diff.Sign() != 0 {
